@@ -22,8 +22,8 @@ import (
 type faultCase struct {
 	Op      string          `json:"op"` // writeto persist merge
 	Plan    *spec.MergePlan `json:"plan"`
-	BufSize int             `json:"bufSize"`        // DefaultFileMergerBufferSize for merge
-	Fracs   []uint16        `json:"fracs"`          // extra offsets as fractions of the output size
+	BufSize int             `json:"bufSize"`         // DefaultFileMergerBufferSize for merge
+	Fracs   []uint16        `json:"fracs"`           // extra offsets as fractions of the output size
 	Dense   bool            `json:"dense,omitempty"` // enumerate every offset regardless of size
 }
 
